@@ -635,7 +635,7 @@ func main() {
 		},
 		Cases: func(tier string) int {
 			if tier == "thorough" {
-				return 100000
+				return 40000
 			}
 			return 3000
 		},
